@@ -27,7 +27,7 @@ impl core::cmp::PartialEq for VertexId { fn eq(&self, o: &VertexId) -> bool { se
 impl vstd::std_specs::cmp::PartialEqSpecImpl for EdgeId { open spec fn obeys_eq_spec() -> bool { true } open spec fn eq_spec(&self, o: &EdgeId) -> bool { self.0 == o.0 } }
 impl core::cmp::PartialEq for EdgeId { fn eq(&self, o: &EdgeId) -> bool { self.0 == o.0 } }
 #[verifier::external_body] pub proof fn vid_key_model() ensures vstd::std_specs::hash::obeys_key_model::<VertexId>() {}
-#[verifier::external_body] pub struct Distance { _p: u8 }
+#[derive(Copy, Clone)] pub struct Distance(pub f64);
 #[verifier::external_body] pub struct Vertex { _p: u8 }
 pub enum NetworkError { EdgeNotFound(EdgeId), VertexNotFound(VertexId), Other }
 // CompactOrderedHashMap<EdgeId, VertexId> by its contract (unit c11_container): abstract value map; insert adds / overwrites one key
